@@ -31,7 +31,7 @@ using sim::Rng;
 enum { C_VARIANT = 0, C_QLEN, C_RECYCLE, C_UNIVERSE, C_ARENAS };
 enum {
     B_INSERT = 0, B_INSERT_HINT, B_INSERT_RANGE, B_ERASE_KEY, B_ERASE_ONE, B_ERASE_ITER, B_CLEAR, B_COPY_CTOR, B_ASSIGN, B_SWAP,
-    B_BULK_LOAD, B_DESTROY, B_CONSTRUCT, B_N
+    B_BULK_LOAD, B_DESTROY, B_CONSTRUCT, B_INSERT_ALIAS, B_ERASE_KEY_ALIAS, B_ERASE_ONE_ALIAS, B_N
 };
 const uint32_t RECYCLE[] = {0, 300, 700, 1000};
 constexpr int NVARIANTS = 10;
@@ -79,7 +79,7 @@ void run(const Workload& w, Result& res, bool tracked) {
     auto fresh = [&](int slot) { return std::make_unique<C>(typename C::allocator_type(arenas ? slot + 1 : 0)); };
     if (arenas) res.probe("distinct_allocator_instances");
     static const char* names[] = {"insert", "insert_hint", "insert_range", "erase_key", "erase_one", "erase_iter", "clear", "copy_ctor",
-                                  "assign", "swap", "bulk_load", "destroy", "construct"};
+                                  "assign", "swap", "bulk_load", "destroy", "construct", "insert_alias", "erase_key_alias", "erase_one_alias"};
     int step = 0, payload = 1;
     const int64_t live0 = sim::tracked_live();
     auto ins_shadow = [&](int s, int k) { if (Dup || shadow[s].count(k) == 0) shadow[s].insert(k); };
@@ -122,7 +122,7 @@ void run(const Workload& w, Result& res, bool tracked) {
                 break;
             }
             case B_ERASE_ITER:
-                if (!shadow[i].empty()) {
+                if (!t[i]->empty()) {
                     // an iterator inside a duplicate run / at leaf borders: advance from begin
                     auto it = t[i]->begin();
                     std::advance(it, long(size_t(arg * 7 + k) % t[i]->size()));
@@ -156,6 +156,35 @@ void run(const Workload& w, Result& res, bool tracked) {
                 res.probe("bulk_load_keys", uint64_t(n));
                 break;
             }
+            // the argument is a reference to an element (or key) stored in the same tree: s.insert(*it), s.erase(*it)
+            case B_INSERT_ALIAS:
+                if (!t[i]->empty()) {
+                    auto it = t[i]->begin();
+                    std::advance(it, long(size_t(arg * 7 + k) % t[i]->size()));
+                    int kk = V::key(*it);
+                    t[i]->insert(*it); ins_shadow(i, kk);
+                }
+                break;
+            case B_ERASE_KEY_ALIAS:
+                if (!t[i]->empty()) {
+                    auto it = t[i]->begin();
+                    std::advance(it, long(size_t(arg * 7 + k) % t[i]->size()));
+                    int kk = V::key(*it);
+                    size_t n = t[i]->erase(it.key());
+                    if (n != shadow[i].count(kk)) res.probe("beyond_c02.erase_count_differs_from_shadow");
+                    shadow[i].erase(kk);
+                }
+                break;
+            case B_ERASE_ONE_ALIAS:
+                if (!t[i]->empty()) {
+                    auto it = t[i]->begin();
+                    std::advance(it, long(size_t(arg * 7 + k) % t[i]->size()));
+                    int kk = V::key(*it);
+                    t[i]->erase_one(it.key());
+                    auto f = shadow[i].find(kk);
+                    if (f != shadow[i].end()) shadow[i].erase(f);
+                }
+                break;
             case B_DESTROY: t[i] = nullptr; shadow[i].clear(); break;
             case B_CONSTRUCT: t[i] = nullptr; t[i] = fresh(i); shadow[i].clear(); break;
             }
@@ -240,6 +269,12 @@ void generate(Rng& r, Workload& w, int tier) {
             if (k < 72) code = erase_kind == 3 ? B_ERASE_KEY + int64_t(r.below(3)) : B_ERASE_KEY + erase_kind;
             else if (k < 97) code = B_INSERT + int64_t(r.below(2));
             else code = r.chance(1, 2) ? B_COPY_CTOR : B_SWAP;
+            // now and then the argument is a reference into the tree itself
+            if (r.chance(1, 8)) {
+                if (code == B_ERASE_KEY) code = B_ERASE_KEY_ALIAS;
+                else if (code == B_ERASE_ONE) code = B_ERASE_ONE_ALIAS;
+                else if (code == B_INSERT) code = B_INSERT_ALIAS;
+            }
             int64_t slot = (code == B_COPY_CTOR || code == B_SWAP) ? int64_t(r.below(3)) : 0;
             w.ops.push_back({code, slot, int64_t(r.below(3)), int64_t(r.below(400)), int64_t(r.below(64))});
         }
